@@ -684,7 +684,117 @@ def c06(prop, tier):
         shutil.rmtree(work, ignore_errors=True)
 
 
+def run_trace_stage(vh, work, tag, subcmd, module, extra_args=None, consts=None, invariants=None, prop="C20", what=""):
+    """harness subcommand that records a trace + TLC validation of it. Returns a stage-result dict."""
+    tr = os.path.join(work, f"{tag}.ndjson")
+    rp, fp = os.path.join(work, f"{tag}.json"), os.path.join(work, f"{tag}_fail.ndjson")
+    p = subprocess.run([vh, subcmd, "-out", tr, "-report", rp, "-fail", fp] + (extra_args or []), capture_output=True, text=True, timeout=2400)
+    if p.returncode != 0:
+        return {"machinery": [f"{subcmd}: {p.stderr[-500:]}"]}
+    rep = vlib.read_report(rp)
+    r, ok, depth = validate_trace(module, tr, work, tag, consts=consts, invariants=invariants)
+    res = {"states": r.distinct, "transitions": r.generated, "traces": rep.get("cases", 0), "fail_path": fp, "calls": rep.get("calls", 0),
+           "samples": rep.get("samples") or [],
+           "info": {f"trace_{tag}": {"module": module, "events": (rep.get("extra") or {}).get("events", 0), "accepted": ok,
+                                      "calls": rep.get("calls", 0)}}}
+    if r.error or r.violation:
+        res["machinery"] = [f"{module}: {(r.error or r.violation)[:500]}"]
+    elif not ok:
+        lines = open(tr).read().splitlines()
+        bad = lines[depth - 1] if 0 < depth <= len(lines) else "?"
+        ctx = ""
+        for j in range(min(depth, len(lines)) - 1, -1, -1):
+            d = json.loads(lines[j])
+            if d.get("pat"):
+                ctx = d["pat"]
+                break
+        with open(fp, "a") as fh:
+            fh.write(json.dumps({"prop": prop, "api": f"{module}", "mode": "first", "pattern": ctx, "hay": "", "scope": "trace",
+                                 "args": f"trace line {depth}", "want": what or f"an event allowed by {module}", "got": bad}) + "\n")
+    return res
+
+
+def c20(prop, tier):
+    t0 = time.time()
+    q = tier == "quick"
+    vh = vlib.build_harness()
+    vh_plain = vlib.build_harness(tags=("novh",), name="vh-notag")
+    work = tempfile.mkdtemp(prefix="vC20_")
+    try:
+        machinery, fail_paths, samples = [], [], []
+        states = trans = traces = calls = 0
+        info = {}
+
+        def take(res):
+            nonlocal states, trans, traces, calls
+            machinery.extend(res.get("machinery") or [])
+            states += res.get("states", 0)
+            trans += res.get("transitions", 0)
+            traces += res.get("traces", 0)
+            calls += res.get("calls", 0)
+            info.update(res.get("info") or {})
+            samples.extend((res.get("samples") or [])[:1])
+            if res.get("fail_path"):
+                fail_paths.append(res["fail_path"])
+
+        # design models
+        take(tlc_model_stage("DFACache", "DFACache", {"Cap": 10 if q else 14, "Sizes": {2, 3}, "Base": 3, "MaxClears": 2, "MaxOps": 12 if q else 16},
+                             "SPECIFICATION Spec\nINVARIANTS Bounded ClearsBounded\nPROPERTY FullResolved\n", workers=4)(vh, work))
+        take(tlc_model_stage("Pool_sequential", "MC_Pool", {"Gs": {1}, "Calls": 3, "MaxNew": 3, "MaxGC": 1, "EmitSchedules": False},
+                             "SPECIFICATION Spec\nINVARIANTS Exclusive NotShared OneStateWhenSequential\nPROPERTY Termination\nVIEW View\n", workers=2)(vh, work))
+        take(tlc_model_stage("Backtrack", "Backtrack", {"G": 4, "MaxN": 2, "MaxSearches": 5, "WrapClears": "cap"},
+                             "SPECIFICATION Spec\nINVARIANTS TypeOK NoStale Bounded\n", workers=4)(vh, work))
+        # recorded executions
+        take(run_trace_stage(vh, work, "dfa", "dfatrace", "Trace_DFACache", extra_args=["-searches", "60" if q else "400"], prop=prop,
+                             what="Insert only below capacity, clears within MaxCacheClears, usage <= capacity + one state"))
+        take(run_trace_stage(vh, work, "poolseq", "poolseq", "Trace_Pool", invariants=["Exclusive", "NotShared"], prop=prop,
+                             what="hand-off of search states as in spec/Pool.tla"))
+        take(run_trace_stage(vh, work, "bt", "bttrace", "Trace_Backtrack", extra_args=["-npat", "1", "-wraps", "1"], consts={"G": 65536},
+                             invariants=["Bounded"], prop=prop, what="visited table: need <= cap, live length <= capacity"))
+        # allocations: patterns of the universe (one small TLC generator run) + the representatives, WITHOUT the verif tag
+        gen = os.path.join(work, "gen.out")
+        r = vlib.run_tlc("MC_Search", {"Family": "REV" if vlib.seed() % 2 else "CC", "Shard": vlib.seed() % 4, "NShards": 8 if q else 4,
+                                       "Budget": 20, "LCap": 3, "WithAt": False}, SEARCH_CFG, gen, workers=4, timeout=900)
+        if r.error or r.violation:
+            machinery.append(f"MC_Search for allocs: {r.error or r.violation}")
+        states += r.distinct
+        trans += r.generated
+        rp, fp = os.path.join(work, "allocs.json"), os.path.join(work, "allocs_fail.ndjson")
+        p = subprocess.run([vh_plain, "allocs", "-in", gen, "-report", rp, "-fail", fp, "-maxpat", "150" if q else "600"],
+                           capture_output=True, text=True, timeout=2400)
+        if p.returncode != 0:
+            machinery.append("allocs: " + p.stderr[-500:])
+        else:
+            arep = vlib.read_report(rp)
+            fail_paths.append(fp)
+            calls += arep.get("calls", 0)
+            traces += arep.get("cases", 0)
+            samples += (arep.get("samples") or [])[:2]
+            info["allocs"] = {"patterns": arep.get("patterns"), "pattern_haystack_pairs": arep.get("cases"), "calls": arep.get("calls")}
+        kf, known_hit, violations, total = vlib.classify(fail_paths, prop)
+        coverage = {"states": states, "transitions": trans, "traces_validated_against_impl": traces, "samples": samples[:6] or [{"note": "none"}],
+                    "evaluations": calls, "distinct_nontrivial": traces,
+                    "rule": "protocol models (DFACache, Pool with one goroutine, Backtrack) checked by TLC; recorded executions validated by the trace "
+                            "specifications: 105 lazy-DFA caches (7 patterns x 5 capacities x 3 clear budgets) over a fixed corpus with MemoryUsage probes, "
+                            "12 single-goroutine pool histories of 360 calls with a GC, one backtracker history through a generation overflow; "
+                            "AllocsPerRun = 0 and stable post-GC heap for 7 documented zero-allocation calls over representative and universe patterns "
+                            "(binary built without the verif tag); distinct = recorded traces + (pattern, haystack) pairs measured",
+                    "stages": info, "failing_calls_total": total, "exhaustive": False}
+        return vlib.finish(prop, tier, "model_checking", coverage, known_hit, violations, t0, kf,
+                           assumptions=["MemoryUsage() is the library's own byte accounting (the bound is stated in its terms)",
+                                        "allocation counts are measured on a build without instrumentation"], machinery=machinery)
+    finally:
+        keep = os.environ.get("VERIF_KEEP")
+        if keep:
+            os.makedirs(keep, exist_ok=True)
+            for f in os.listdir(work):
+                if f.endswith("fail.ndjson"):
+                    shutil.copy(os.path.join(work, f), os.path.join(keep, f"{prop}_fail_{f}"))
+        shutil.rmtree(work, ignore_errors=True)
+
+
 REGISTRY = {
+    "C20": c20,
     "C06": c06,
     "C15": c15,
     "C19": c19,
